@@ -1,5 +1,5 @@
 use crate::{
-  native, native_with_error,
+  create_error, native, native_with_error,
   support::{export_and_insert, load_class_from_module},
   StdResult,
 };
@@ -240,12 +240,9 @@ impl LyNative for ListStr {
           buf.push_str(", ");
         } else {
           // if error throw away temporary strings
-          return hooks.call(
-            self.error,
-            &[val!(hooks.manage_str(format!(
+          return create_error!(self.error, hooks, format!(
               "Expected type str from {item}.str()"
-            )))],
-          );
+            ));
         });
       }
 
@@ -261,13 +258,10 @@ impl LyNative for ListStr {
           buf.push_str(&string);
         } else {
           // if error throw away temporary strings
-          return hooks.call(
-            self.error,
-            &[val!(hooks.manage_str(format!(
+          return create_error!(self.error, hooks, format!(
               "Expected type str from {}.str()",
               *last
-            )))],
-          );
+            ));
         });
       })
     }
